@@ -7,7 +7,8 @@ class C07(Prop):
     id = "C07"
     title = "NAS ciphering and integrity algorithms are the 3GPP 128-NEA/NIA algorithms"
     lean_module = "Stgutg.Props.C07"
-    gen = ["tables"]
+    gen = ["tables", "pure-secalg", "pure-selftest-sec"]
+    extra_modules = ["Stgutg.Proofs.GenTieSecAlg", "Stgutg.Gen.PureSelftestSec"]
     theorems = [
         "Stgutg.Props.C07.sr_table",
         "Stgutg.Props.C07.sq_table",
@@ -23,13 +24,48 @@ class C07(Prop):
         "Stgutg.Props.C07.nea1_involutive",
         "Stgutg.Props.C07.nea2_involutive",
         "Stgutg.Props.C07.snow3g_init_overwrites_state",
+        "Stgutg.Proofs.GenTie.SecAlg.mulx_eq",
+        "Stgutg.Proofs.GenTie.SecAlg.mulxPow_eq",
+        "Stgutg.Proofs.GenTie.SecAlg.s1_eq",
+        "Stgutg.Proofs.GenTie.SecAlg.s2_eq",
+        "Stgutg.Proofs.GenTie.SecAlg.mulAlpha_eq",
+        "Stgutg.Proofs.GenTie.SecAlg.divAlpha_eq",
+        "Stgutg.Proofs.GenTie.SecAlg.toGen_surj",
+        "Stgutg.Proofs.GenTie.SecAlg.clockFsm_eq",
+        "Stgutg.Proofs.GenTie.SecAlg.lfsrInitialisationMode_eq",
+        "Stgutg.Proofs.GenTie.SecAlg.lfsrKeystreamMode_eq",
+        "Stgutg.Proofs.GenTie.SecAlg.InitSnow3g_eq",
+        "Stgutg.Proofs.GenTie.SecAlg.GenerateKeystream_eq",
+        "Stgutg.Proofs.GenTie.SecAlg.GenerateKeystream_nonpos",
+        "Stgutg.Proofs.GenTie.SecAlg.GenerateKeystream_short",
     ]
     domains = [Domain("sec-alg", 2000, 100000)]
     rule = ("sec-alg: NASEncrypt/NASMacCalculate at every length 1..80 (thorough 1..600) x alg x dir x bearer{0,1,31} "
             "plus random keys/counts/lengths and argument-check edges; non-trivial = accepted call with a non-empty message "
             "under a non-null algorithm; distinct by op line")
     trusted_base = ["crypto/aes, cipher.NewCTR, github.com/aead/cmac are parameters of the theorems (Prims); "
-                    "Crypto/Aes.lean instantiates them for the comparator only (FIPS-197/SP800-38A/RFC4493 vectors)"]
+                    "Crypto/Aes.lean instantiates them for the comparator only (FIPS-197/SP800-38A/RFC4493 vectors)",
+                    "TIE BY TRANSLATION of SNOW 3G (gen pure-secalg, harness/cmd/gen/pure_secalg*.go = the WORD-MACHINE grammar of the pure-* translators -> "
+                    "lean/Stgutg/Gen/PureSecAlg.lean, regenerated from the source text of src/free5gclib/nas/security/snow3g/snow3g.go on every run): all eleven "
+                    "functions of the file — mulx, mulxPow, s1, s2, mulAlpha, divAlpha, (*State).lfsrInitialisationMode, lfsrKeystreamMode, clockFsm, InitSnow3g, "
+                    "(*State).GenerateKeystream — and the two package-level tables sr / sq (read from the same text) are tied by theorems generated = hand model "
+                    "Model/Snow3g.lean (Proofs/GenTieSecAlg.lean: mulx_eq, mulxPow_eq [the recursion never outlives its fuel], s1_eq / s2_eq [for every word: no "
+                    "table look-up is out of range and the tables are the regenerated Gen.Snow3g.sr/sq], mulAlpha_eq, divAlpha_eq, clockFsm_eq, "
+                    "lfsrInitialisationMode_eq, lfsrKeystreamMode_eq for EVERY state, InitSnow3g_eq for every key and IV, GenerateKeystream_eq for every state, every "
+                    "count n and every output slice of at least n words [the n words of the model, the rest of the slice untouched], GenerateKeystream_short "
+                    "[a shorter slice: panic], GenerateKeystream_nonpos [n <= 0: nothing written]; toGen_surj: every value of the Go type State is covered), so a "
+                    "change of the Go text changes the generated definition and the theorem stops checking, whatever input would show it. NOT tied by translation: "
+                    "security.go (NEA1/NIA1/NEA2/NIA2, NASEncrypt, NASMacCalculate, mul/mulx/mulxPow on uint64) — still tied by the differential domain sec-alg only. "
+                    "Trusted here instead of sampling: the word-machine grammar (header of pure_secalg.go; anything else fails closed with file:line) and its runtime "
+                    "Gen/PureRt.lean + Gen/PureRtSec.lean: [N]T arrays are values carried as lists of their N elements (x[i] is checked against the length whatever "
+                    "the index); the object behind a pointer receiver / a `new` local has exactly one name inside a function (pointers are never copied, compared or "
+                    "passed) and is returned as a value with the results, nothing being said about it after a panic; a package-level table is a constant BECAUSE it is "
+                    "unexported and every use in its package is a read of t[i] (go/types Uses); a slice parameter written through is an OUT-PARAMETER returned with the "
+                    "results, ASSUMED not to share storage with another argument; counted loops and self-recursion run on FUEL that is visible in the output (outliving "
+                    "it is `hang`, which no theorem equates with a model value). The grammar and runtime are checked against the Go compiler on every run: gen "
+                    "pure-selftest-sec translates harness/cmd/gen/pureselftest/sec.go (every construct) and writes the outcomes of EXECUTING the compiled functions beside "
+                    "the translation (Gen/PureSelftestSec.lean: about 950 calls, about 100 of them panics, each with the object behind the receiver and the "
+                    "out-parameter as the call left them, as kernel-checked equalities)"]
     level_text = ("Theorems for all keys/COUNT/BEARER/DIRECTION and all message lengths: the code-shaped models of NEA1/NIA1 "
                   "(incl. SNOW 3G with its tables regenerated from the source) equal 128-EEA1/EIA1, NEA2/NIA2 equal 128-EEA2/EIA2 "
                   "parametric in AES-CTR/CMAC, NEA0 is the identity, every octet is covered, the ciphers are involutions; "
